@@ -123,11 +123,18 @@ def evaluate(prop: str, programs: list[str]):
         if len(impl[i]) != len(cmds) or len(model[i]) != len(cmds):
             continue
         try:
+            stats.corr_diffs = []
             for v in oracle(cmds, impl[i], model[i], stats):
                 v.prog_index = i
                 viols.append(v)
+            if stats.corr_diffs:
+                lst = getattr(stats, "corr_diffs_indexed", [])
+                lst.extend((d, i) for d in stats.corr_diffs[:1])
+                stats.corr_diffs_indexed = lst
         except Exception as e:  # noqa: BLE001
             raise RuntimeError(f"oracle crashed on program {i}: {e}\n{traceback.format_exc()}")
+    for (k, cmd, il, ml), i in getattr(stats, "corr_diffs_indexed", []):
+        dis.append(run.Disagreement(i, k, cmd, il, ml))
     return dis, viols, stats, impl, model
 
 
